@@ -81,6 +81,21 @@ HasAt(s) == \E i \in 1..Len(s) : SubSeq(s, i, i) = "@"
 Subst(s, ctx) == IF ~HasAt(s) THEN s
                  ELSE ReplaceAll(ReplaceAll(s, "@GLOBAL_SOURCE_ROOT@", ctx.root), "@DIRNAME@", ctx.dir)
 
+\* ---- backslashes.  The documentation never states an escape rule; it writes a backslash inside a string doubled
+\* ([MF] Binaries: `sed = 'C:\\program files\\gnu\\sed.exe'`) and gives one input/output pair ([MF] CMake variables:
+\* `CMAKE_CXX_COMPILER = 'C:\\usr\\bin\\g++'` arrives as `"C:/usr/bin/g++"` after "all occurrences of \ ... will be
+\* replaced with a /"): so `\\` denotes one backslash.  A single backslash is never shown: open.
+RECURSIVE Unesc(_)
+Unesc(s) == IF Len(s) = 0 THEN [s |-> "", lone |-> FALSE]
+            ELSE IF SubSeq(s, 1, 1) # "\\"
+                 THEN LET r == Unesc(SubSeq(s, 2, Len(s))) IN [s |-> SubSeq(s, 1, 1) \o r.s, lone |-> r.lone]
+            ELSE IF Len(s) >= 2 /\ SubSeq(s, 2, 2) = "\\"
+                 THEN LET r == Unesc(SubSeq(s, 3, Len(s))) IN [s |-> "\\" \o r.s, lone |-> r.lone]
+            ELSE [s |-> "", lone |-> TRUE]
+HasBackslash(s) == \E i \in 1..Len(s) : SubSeq(s, i, i) = "\\"
+StrVal(s, ctx) == IF ~HasBackslash(s) THEN VStr(Subst(s, ctx))
+                  ELSE LET us == Unesc(Subst(s, ctx)) IN IF us.lone THEN VOpen ELSE VStr(us.s)
+
 \* ---- operators [MF-C]: "String and list concatenation is supported using the + operator, joining paths is
 \* supported using the / operator" - nothing else is; other operand types are errors ---------------------------
 \* [JP]: "If any one of the individual segments is an absolute path, all segments before it are dropped";
@@ -125,7 +140,7 @@ FirstBad(vs) == IF \E i \in 1..Len(vs) : IsErr(vs[i]) THEN vs[CHOOSE i \in 1..Le
 
 RECURSIVE EvalExpr(_, _), EvalTerm(_, _), EvalAtom(_, _), FoldAdd(_, _, _), FoldJoin(_, _, _)
 EvalAtom(a, ctx) ==
-    CASE a.k = "str"  -> VStr(Subst(a.s, ctx))
+    CASE a.k = "str"  -> StrVal(a.s, ctx)
       [] a.k = "int"  -> VInt(a.n)
       [] a.k = "bool" -> VBool(a.n = 1)
       [] a.k = "id"   -> Lookup(a.s, ctx)
